@@ -20,6 +20,10 @@ use verif_harness::spy::{Spy, TOp, FAIL_KINDS};
 use verif_harness::sysrun::*;
 use verif_harness::*;
 
+// static audit of index / arithmetic sites (NOPANIC): harness/src/c18_scan.rs
+#[path = "../c18_scan.rs"]
+mod c18_scan;
+
 // ------------------------------------------------------------------ static audit of panic sites
 /// (file, whitespace-normalised statement text, why it cannot be reached by an I/O failure)
 const AUDITED: &[(&str, &str, &str)] = &[
@@ -112,131 +116,6 @@ fn audit_panic_sites(s: &mut Session) {
     s.oracle_only("static audit: unwrap/expect/panic!/assert sites of progress_bar.rs state.rs multi.rs draw_target.rs".into(), true);
 }
 
-// ------------------------------------------------------------------ static audit of index / arithmetic sites
-/// The function bodies coq/model/SysPanic.v transcribes (second audit m8: the `psite` inventory is
-/// manual; this scan makes a NEW slice/Vec index or unchecked `+`/`-` in those bodies visible).
-const MODELLED_FNS: &[(&str, &[&str])] = &[
-    ("multi.rs", &["insert_before", "insert_after", "remove", "internalize", "println", "suspend", "clear", "mark_zombie", "draw", "draw_state", "insert", "remove_idx", "len", "width"]),
-    ("state.rs", &["finish_using_style", "tick", "update_estimate_and_draw", "println", "suspend", "draw", "drop"]),
-    ("draw_target.rs", &["width", "mark_zombie", "drawable", "disconnect", "remote", "adjust_last_line_count", "last_line_count", "state", "clear", "draw", "drop", "draw_to_term", "reset", "visual_line_count", "saturating_add", "saturating_sub", "as_usize", "add", "add_assign", "sub", "from", "wrapped_height", "console_width"]),
-];
-
-/// (file, whitespace-normalised code line, verdict): every line of a modelled body that indexes a
-/// Vec/slice or uses an unchecked `+`, `-`, `+=`, `-=`; the verdict names the `psite` constructor
-/// of SysPanic.v or says why the operation is total
-const AUDITED_IDX_ARITH: &[(&str, &str, &str)] = &[
-    ("multi.rs", "let member = &mut self.members[index];", "psite P_mark_members_index"),
-    ("multi.rs", "let member = &self.members[index];", "psite P_draw_scan_index"),
-    ("multi.rs", "let member = &self.members[*index];", "psite P_draw_compose_index"),
-    ("multi.rs", "draw_state.lines.extend_from_slice(&state.lines[..]);", "total: full range"),
-    ("multi.rs", "self.members[idx] = MultiStateMember::default();", "psite P_insert_free_index (insert) / P_remove_members_index (remove_idx)"),
-    ("multi.rs", "self.members.len() - 1", "total: right after a push"),
-    ("multi.rs", "self.ordering.insert(pos + 1, idx);", "total: pos < len from position(); Vec::insert panics only above len"),
-    ("multi.rs", "self.members.len() - self.free_set.len()", "psite P_len_sub"),
-    ("draw_target.rs", "if i + 1 != n {", "total: i < n"),
-    ("draw_target.rs", "MultiProgressAlignment::Bottom if full_height < *bar_count => *bar_count - full_height,", "psite P_dt_shift_sub"),
-    ("draw_target.rs", "for _ in 0..shift.as_usize() - usize::from(full_screen_padding) {", "psite P_dt_pad_sub (fix 881c313)"),
-    ("draw_target.rs", "real_height += line_height;", "psite P_dt_real_add"),
-    ("draw_target.rs", "if idx + 1 == self.lines.len() || (idx == 0 && line.console_width() == 0) {", "total: idx < lines.len()"),
-    ("draw_target.rs", "*bar_count = real_height + shift;", "psite P_dt_count_add"),
-    ("draw_target.rs", "visual_line_count(&self.lines[range], width)", "total: only ever called with the full range `..`"),
-    ("draw_target.rs", "Self(self.0 + rhs.0)", "the Add impl behind P_dt_count_add"),
-    ("draw_target.rs", "self.0 += rhs.0;", "the AddAssign impl behind P_dt_real_add (and, before fix f8fa07f, P_draw_adjust_add)"),
-    ("draw_target.rs", "Self(self.0 - rhs.0)", "the Sub impl behind P_dt_shift_sub"),
-];
-
-fn strip_strings(code: &str) -> String {
-    let mut out = String::new();
-    let mut in_str = false;
-    let mut prev = ' ';
-    for c in code.chars() {
-        if c == '"' && prev != '\\' && prev != '\'' {
-            in_str = !in_str;
-            out.push('"');
-        } else if !in_str {
-            out.push(c);
-        }
-        prev = c;
-    }
-    out
-}
-
-fn has_index_or_arith(code: &str) -> bool {
-    let cs: Vec<char> = code.chars().collect();
-    for (i, &c) in cs.iter().enumerate() {
-        if c == '[' && i > 0 {
-            let p = cs[i - 1];
-            if p.is_alphanumeric() || p == '_' || p == ')' || p == ']' {
-                return true; // expr[..]: an index (macros have `!`, types `&`/`<`/space, attributes `#` before `[`)
-            }
-        }
-    }
-    let padded = format!(" {code} ");
-    [" + ", " - ", "+=", "-="].iter().any(|t| padded.contains(t))
-}
-
-fn audit_index_arith_sites(s: &mut Session) {
-    let repo = std::env::var("VERIF_REPO").unwrap_or_else(|_| "/repo".into());
-    let mut sites = 0;
-    for (file, fns) in MODELLED_FNS {
-        let src = match std::fs::read_to_string(format!("{repo}/src/{file}")) {
-            Ok(x) => x,
-            Err(e) => {
-                s.fail("source-unreadable", format!("{file}: {e}"), format!("static index/arith audit of {file}"));
-                continue;
-            }
-        };
-        let lines: Vec<&str> = src.lines().collect();
-        let end = lines.iter().position(|l| l.starts_with("mod tests") || l.starts_with("mod test ")).unwrap_or(lines.len());
-        let mut depth: i64 = 0; // brace depth inside a modelled fn (0 = outside)
-        let mut in_fn = false;
-        let mut seen_open = false;
-        for i in 0..end {
-            let code = strip_strings(lines[i].split("//").next().unwrap_or("").trim());
-            if !in_fn {
-                let is_start = fns.iter().any(|f| code.contains(&format!("fn {f}(")) || code.contains(&format!("fn {f}<")));
-                if !is_start {
-                    continue;
-                }
-                in_fn = true;
-                seen_open = false;
-                depth = 0;
-            }
-            // the signature (possibly several lines, up to and including the line of the opening
-            // brace) is not part of the body
-            let in_body = seen_open;
-            for c in code.chars() {
-                if c == '{' {
-                    depth += 1;
-                    seen_open = true;
-                } else if c == '}' {
-                    depth -= 1;
-                }
-            }
-            if in_body && has_index_or_arith(&code) {
-                sites += 1;
-                let norm = code.split_whitespace().collect::<Vec<_>>().join(" ");
-                let ok = AUDITED_IDX_ARITH.iter().any(|(f, t, _)| f == file && *t == norm);
-                if std::env::var("C18_LIST_SITES").is_ok() {
-                    println!("IDXARITH {file}:{} {} `{norm}`", i + 1, if ok { "ok" } else { "UNAUDITED" });
-                }
-                if !ok {
-                    s.fail(
-                        "unaudited-index-or-arith-site",
-                        format!("src/{file}:{}: `{norm}` indexes a Vec/slice or uses an unchecked +/- inside a function body that coq/model/SysPanic.v transcribes, and is not in the audited list (new psite?)", i + 1),
-                        format!("static index/arith audit of src/{file}:{}", i + 1),
-                    );
-                }
-            }
-            if seen_open && depth <= 0 {
-                in_fn = false;
-            }
-        }
-    }
-    s.count_n("static_index_arith_sites_audited", sites);
-    s.oracle_only("static audit: Vec/slice index and unchecked +/- sites in the function bodies transcribed by coq/model/SysPanic.v (multi.rs state.rs draw_target.rs)".into(), true);
-}
-
 // ------------------------------------------------------------------ generators
 /// terminal sizes of the fault sweep: degenerate widths (0 = a terminal reporting no columns) and
 /// heights lower than the frames included
@@ -257,7 +136,14 @@ fn gen_single(r: &mut Rng) -> Case {
         t += gen_gap(r);
         ops.push((
             t,
-            match r.below(16) {
+            match r.below(23) {
+                16 => Op::Dec(0, r.below(4)),
+                17 => Op::IncLen(0, r.below(9)),
+                18 => Op::DecLen(0, r.below(9)),
+                19 => Op::UnsetLen(0),
+                20 => Op::SetStyle(0, gen_small_tmpl(r, wu, 0)),
+                21 => Op::ResetEta(0),
+                22 => Op::ResetElapsed(0),
                 0..=1 => Op::Tick(0),
                 2..=3 => Op::Inc(0, r.below(4)),
                 4 => Op::SetPos(0, r.below(60)),
@@ -301,7 +187,156 @@ fn gen_multi(r: &mut Rng) -> Case {
             let _ = t;
         }
     }
+    sprinkle_rare_ops(r, &mut c);
     c
+}
+
+/// ops that sysrun's multi generator never produces (AUDIT3 finding 38), placed on a bar between
+/// its add/insert and its drop
+fn sprinkle_rare_ops(r: &mut Rng, c: &mut Case) {
+    let wu = c.w as usize;
+    for _ in 0..r.range(1, 4) {
+        let members: Vec<usize> = c.ops.iter().filter_map(|(_, o)| if let Op::Insert(_, b) = o { Some(*b) } else { None }).collect();
+        if members.is_empty() {
+            return;
+        }
+        let b = *r.pick(&members);
+        let first = c.ops.iter().position(|(_, o)| matches!(o, Op::Insert(_, x) if *x == b)).unwrap();
+        let last = c.ops.iter().position(|(_, o)| matches!(o, Op::Drop(x) if *x == b)).unwrap_or(c.ops.len());
+        let at = r.range(first as u64 + 1, last as u64) as usize;
+        let t = c.ops[at - 1].0;
+        let op = match r.below(7) {
+            0 => Op::Dec(b, r.below(4)),
+            1 => Op::IncLen(b, r.below(9)),
+            2 => Op::DecLen(b, r.below(9)),
+            3 => Op::UnsetLen(b),
+            4 => Op::SetStyle(b, gen_small_tmpl(r, wu, b)),
+            5 => Op::ResetEta(b),
+            _ => Op::ResetElapsed(b),
+        };
+        c.ops.insert(at, (t, op));
+    }
+}
+
+/// Bottom alignment with a shrinking region under faults: three drawn members, two of them
+/// removed (the redraws pad the freed rows), then println of the MultiProgress / of a member with
+/// at least one bar left - the draw that writes text lines, THEN the padding, then the bar
+fn gen_bottom_shrink(r: &mut Rng) -> Case {
+    let w = *r.pick(&[7u16, 20, 80]);
+    let wu = w as usize;
+    let nb = r.range(3, 4) as usize;
+    let bars: Vec<BarInit> = (0..nb)
+        .map(|i| BarInit {
+            len: Some(r.below(30)),
+            fin: gen_fin_short(r, wu),
+            tmpl: vec![TPart::Lit(((b'A' + i as u8) as char).to_string()), TPart::Pos],
+            target: TInit::Hidden,
+        })
+        .collect();
+    let mut t = 0u64;
+    let mut ops = vec![];
+    let mut push = |ops: &mut Vec<(u64, Op)>, o: Op| {
+        t += 1_000_000;
+        ops.push((t, o));
+    };
+    for b in 0..nb {
+        push(&mut ops, Op::Insert(Loc::End, b));
+    }
+    let at = r.below(nb as u64 + 1) as usize;
+    ops.insert(at, (0, Op::SetAlign(true)));
+    for b in 0..nb {
+        push(&mut ops, Op::Tick(b));
+    }
+    let mut left: Vec<usize> = (0..nb).collect();
+    for _ in 0..2 {
+        let k = r.below(left.len() as u64) as usize;
+        let b = left.remove(k);
+        push(&mut ops, if r.chance(1, 3) { Op::Drop(b) } else { Op::Remove(b) });
+    }
+    push(&mut ops, Op::MPrintln(gen_short_text(r, wu)));
+    for _ in 0..r.range(1, 4) {
+        let b = *r.pick(&left);
+        let o = match r.below(6) {
+            0 => Op::Println(b, gen_short_text(r, wu)),
+            1 => Op::Inc(b, 1),
+            2 => Op::MClear,
+            3 => Op::SetMsg(b, gen_short_text(r, wu)),
+            _ => Op::MPrintln(gen_multiline(r, wu)),
+        };
+        push(&mut ops, o);
+    }
+    Case { w, h: *r.pick(&[5u16, 10, 30]), fail_at: vec![], fail_from: None, mp: TInit::Term(None), bars, ops }
+}
+
+/// AUDIT3 finding 1 (part G7): W = 10, H = 2, three members, one kept row, then mp.println whose
+/// FIRST terminal call fails (Clear(zombie rows) has pushed the count past the height: the code
+/// leaves it capped at H, draw_target.rs:526-529), then drop b, tick c.
+fn corpus_g7() -> Case {
+    let tm = vec![TPart::Lit("x".into()), TPart::Pos];
+    let bars = (0..3).map(|_| BarInit { len: Some(5), fin: Fin::AndLeave, tmpl: tm.clone(), target: TInit::Hidden }).collect();
+    let raw = vec![
+        Op::Insert(Loc::End, 0),
+        Op::Insert(Loc::End, 1),
+        Op::Insert(Loc::End, 2),
+        Op::Tick(0),
+        Op::Tick(1),
+        Op::Tick(2),
+        Op::Finish(1, Fin::AndLeave),
+        Op::Finish(0, Fin::AndLeave),
+        Op::Drop(0),
+        Op::Tick(2),
+        Op::MPrintln("p".into()),
+        Op::Drop(1),
+        Op::Tick(2),
+    ];
+    let ops = raw.into_iter().enumerate().map(|(i, o)| ((i as u64 + 1) * 1_000_000, o)).collect();
+    Case { w: 10, h: 2, fail_at: vec![], fail_from: None, mp: TInit::Term(None), bars, ops }
+}
+
+/// Long stories with a terminal that KEEPS failing (seeded C18-5: a counter that is bumped on
+/// every failed draw overflows only after a few hundred failures in a row): rate-limited targets
+/// (term_like_with_hz), stand-alone and under a MultiProgress, >= 300 forced draws.
+fn persistent_failure_story(r: &mut Rng, multi: bool) -> Case {
+    let w = *r.pick(&[7u16, 20]);
+    let wu = w as usize;
+    let hz = *r.pick(&[1u8, 20, 255]);
+    let nb = if multi { 2 } else { 1 };
+    let bars: Vec<BarInit> = (0..nb)
+        .map(|i| BarInit {
+            len: Some(50),
+            fin: gen_fin_short(r, wu),
+            tmpl: gen_small_tmpl(r, wu, i),
+            target: if multi { TInit::Hidden } else { TInit::Term(Some(hz)) },
+        })
+        .collect();
+    let mut t = 0u64;
+    let mut ops = vec![];
+    if multi {
+        for b in 0..nb {
+            ops.push((t, Op::Insert(Loc::End, b)));
+        }
+    }
+    let n = r.range(310, 360);
+    let mut finished = vec![false; nb];
+    for _ in 0..n {
+        t += *r.pick(&[0u64, 0, 1, 1000, 60_000_000]);
+        let b = r.below(nb as u64) as usize;
+        let o = match r.below(8) {
+            0..=2 => Op::ForceDraw(b),
+            3 => {
+                finished[b] = true;
+                Op::Finish(b, gen_fin_short(r, wu))
+            }
+            4 if finished[b] => Op::Tick(b), // a finished bar draws forced
+            5 if multi => Op::MPrintln(gen_short_text(r, wu)),
+            5 => Op::Println(b, gen_short_text(r, wu)),
+            6 => Op::SetTabWidth(b),
+            7 if multi => Op::MClear,
+            _ => Op::ForceDraw(b),
+        };
+        ops.push((t, o));
+    }
+    Case { w, h: 30, fail_at: vec![], fail_from: None, mp: if multi { TInit::Term(Some(hz)) } else { TInit::Hidden }, bars, ops }
 }
 
 fn all_getters(r: &Running) -> Vec<Option<Getters>> {
@@ -317,6 +352,22 @@ fn all_getters(r: &Running) -> Vec<Option<Getters>> {
             })
         })
         .collect()
+}
+
+/// drops the handles one at a time, each under its own catch_unwind; after the first panic the
+/// remaining objects are leaked (their Drop would panic as well: a double panic aborts)
+fn drop_one_by_one(r: Running) -> Result<(), String> {
+    let Running { spy: _spy, mp, mut bars } = r;
+    for i in 0..bars.len() {
+        if let Some(pb) = bars[i].take() {
+            if let Err(e) = catch(move || drop(pb)) {
+                std::mem::forget(bars);
+                std::mem::forget(mp);
+                return Err(e);
+            }
+        }
+    }
+    catch(move || drop(mp))
 }
 
 struct FaultRun {
@@ -405,10 +456,12 @@ fn run_faulty(case: &Case, twin: &[StepObs], kind: std::io::ErrorKind, fail_flus
         }
     }
     let injected = inj(&r);
-    if let Err(e) = catch(move || drop(r)) {
-        if bad.is_none() {
-            bad = Some(("io-fault-panic:drop".into(), format!("dropping the objects after the history panicked: {e}")));
-        }
+    if bad.as_ref().map_or(false, |(c, _)| c.contains("panic") || c.contains("poison")) {
+        // a panic inside indicatif may have poisoned a lock: every further Drop would panic, and a
+        // second panic while the first one unwinds aborts the process - leak the objects instead
+        std::mem::forget(r);
+    } else if let Err(e) = drop_one_by_one(r) {
+        bad = Some(("io-fault-panic:drop".into(), format!("dropping the objects after the history panicked: {e}")));
     }
     FaultRun { obs, injected_at, bad, injected }
 }
@@ -602,16 +655,62 @@ fn main() {
     let a = args();
     let mut s = Session::new(&a, "C18", COQ_HEADER, COQ_CASE_TY, COQ_CHECKER);
     s.shard_size = 150;
-    s.rule = "terminal widths 0/1/2/3/7/20/80 x heights 1/2/3/5/10/30 (histogram W:/H: in the distribution); histories (single bar on a terminal incl. println/suspend/set_tab_width/finish/drop; MultiProgress histories with add/insert/remove, println/suspend/clear of bars and of the MultiProgress, finishes and drops); for each history the fault-free run, then for EVERY k below its number of TermLike calls (sampled above the cap) the runs 'only call k fails' and 'all calls from k on fail' on fresh objects; oracle: no panic, getters equal the fault-free twin after every op, mp.println/clear Err iff one of their own calls failed, final round of calls on every bar and the MultiProgress works, drops do not panic; a sample of the faulty runs is compared with the model (sys_check with fail_at/fail_from); the injected io::ErrorKind rotates through Interrupted/WouldBlock/BrokenPipe/Other/TimedOut/UnexpectedEof (recorded in the case text); per history and kind one run in which EVERY flush fails (>= 3 consecutive failing flushes); 36 real-time steady-ticker scenarios (terminal fails for a window, then recovers: frames must arrive again and a later inc must be painted); non-trivial = at least one failure was injected; distinct = distinct case text; plus the static audit of unwrap/expect/panic sites".into();
+    s.rule = "terminal widths 0/1/2/3/7/20/80 x heights 1/2/3/5/10/30 (histogram W:/H: in the distribution); histories (single bar on a terminal incl. println/suspend/set_tab_width/finish/drop; MultiProgress histories with add/insert/remove, println/suspend/clear of bars and of the MultiProgress, finishes and drops); for each history the fault-free run, then for EVERY k below its number of TermLike calls (sampled above the cap) the runs 'only call k fails' and 'all calls from k on fail' on fresh objects; oracle: no panic, getters equal the fault-free twin after every op, mp.println/clear Err iff one of their own calls failed, final round of calls on every bar and the MultiProgress works, drops do not panic; per history 12 of the faulty runs, drawn UNIFORMLY from all k of the sweep and both modes (one-shot fail_at / sticky fail_from), are compared with the model (sys_check; histograms compared_first_k:/compared_mode: in the distribution), the corpus case of AUDIT3 finding 1 (G7: failed println with the count above the height) with every k in both modes; one history in ten is a Bottom-alignment shrink story (3 drawn members, 2 removed, then println with a bar left); 8 persistent-failure stories (rate-limited targets, >= 300 forced draws, every call from k on fails); the injected io::ErrorKind rotates through Interrupted/WouldBlock/BrokenPipe/Other/TimedOut/UnexpectedEof (recorded in the case text); per history and kind one run in which EVERY flush fails (>= 3 consecutive failing flushes); 36 real-time steady-ticker scenarios (terminal fails for a window, then recovers: frames must arrive again and a later inc must be painted); non-trivial = at least one failure was injected; distinct = distinct case text; plus the static audit of unwrap/expect/panic sites".into();
     audit_panic_sites(&mut s);
-    audit_index_arith_sites(&mut s);
+    // static findings are reported and the dynamic part still runs (it may add a concrete failing
+    // input); objects are never dropped in bulk after a panic was seen (see drop_one_by_one)
+    let _static_findings = c18_scan::audit_index_arith_sites(&mut s);
     replay_nopanic_witnesses(&mut s);
     let mut r = Rng::new(a.seed);
     ticker_scenarios(&mut s, &mut r.fork(), if a.thorough { 120 } else { 36 });
     let (n_hist, cap_k, corr_per_hist) = if a.thorough { (700, 400, 14) } else if a.extended { (500, 200, 10) } else { (110, 120, 12) };
-    for i in 0..n_hist {
-        let case = if i % 2 == 0 { gen_single(&mut r) } else { gen_multi(&mut r) };
+    // ---- long persistent-failure stories (every call from k on fails, >= 300 forced draws)
+    for j in 0..(if a.thorough { 24 } else { 8 }) {
+        let case = persistent_failure_story(&mut r, j % 2 == 1);
         let twin = run_case(&case);
+        let forced = case.ops.iter().filter(|(_, o)| matches!(o, Op::ForceDraw(_) | Op::Finish(..) | Op::MPrintln(_) | Op::Println(..) | Op::SetTabWidth(_) | Op::MClear)).count();
+        s.count_n("persistent_failure_stories:forced_draw_ops", forced as u64);
+        let total: u64 = twin.iter().map(|o| o.emitted.len() as u64).sum();
+        for from in [0u64, r.range(1, total.max(2) - 1)] {
+            let mut c = case.clone();
+            c.fail_from = Some(from);
+            let kind = FAIL_KINDS[(j + from as usize) % FAIL_KINDS.len()];
+            let fr = run_faulty(&c, &twin, kind, false);
+            s.count("faulty_runs:persistent_failure_story");
+            s.count_n("failures_injected", fr.injected);
+            let desc = format!("kind={:?} persistent-failure story ({} forced draws) {}", kind, forced, describe(&c));
+            if let Some((class, detail)) = fr.bad {
+                s.fail(&class, format!("[error kind {:?}] {detail}", kind), desc.clone());
+            }
+            if from == 0 {
+                s.case(coq_case(&c, &fr.obs), desc, fr.injected > 0);
+            } else {
+                s.oracle_only(desc, fr.injected > 0);
+            }
+        }
+    }
+    let corpus = vec![corpus_g7()];
+    for i in 0..(n_hist + corpus.len()) {
+        let is_corpus = i < corpus.len();
+        let case = if is_corpus {
+            corpus[i].clone()
+        } else if i % 10 == 9 {
+            gen_bottom_shrink(&mut r)
+        } else if i % 2 == 0 {
+            gen_single(&mut r)
+        } else {
+            gen_multi(&mut r)
+        };
+        if i % 10 == 9 && !is_corpus {
+            s.count("histories:bottom-alignment-shrink");
+        }
+        let twin = run_case(&case);
+        if i % 10 == 9 && std::env::var("C18_DEBUG_BOTTOM").is_ok() {
+            println!("BOTTOM {}", describe(&case));
+            for ((_, op), o) in case.ops.iter().zip(twin.iter()) {
+                println!("   {:?} -> {:?}", op, o.emitted);
+            }
+        }
         if let Some(p) = twin.iter().find_map(|o| o.panic.clone()) {
             s.fail("panic", format!("fault-free run: {p}"), describe(&case));
             continue;
@@ -638,7 +737,6 @@ fn main() {
         for _ in 0..((total.saturating_sub(cap_k)).min(40)) {
             ks.push(r.range(cap_k, total - 1));
         }
-        let mut corr: Vec<(Case, Vec<StepObs>, bool, String)> = vec![];
         // every flush() of the history fails, once per error kind (>= 3 consecutive failing
         // flushes whenever the history draws three times); replayable as fail_at = the call numbers
         for (j, kind) in FAIL_KINDS.iter().enumerate() {
@@ -653,18 +751,27 @@ fn main() {
                 s.fail(&class, format!("[error kind {:?}] {detail}", kind), desc.clone());
             }
             if j == i % 6 && in_model {
+                s.count("compared_mode:every_flush_fails");
                 s.case(coq_case(&c, &fr.obs), desc, fr.injected > 0);
             } else {
                 s.oracle_only(desc, fr.injected > 0);
             }
         }
+        // which (k, mode) runs are COMPARED WITH THE MODEL: drawn uniformly from all k of the sweep
+        // and both modes (one-shot / sticky); for a corpus case all of them
+        let pairs = ks.len() * 2;
+        let want = if is_corpus { pairs } else { corr_per_hist.min(pairs) };
+        let mut compared = std::collections::HashSet::new();
+        while compared.len() < want {
+            compared.insert((r.below(ks.len() as u64) as usize, r.below(2) as usize));
+        }
         let mut run_no = i;
-        for &k in &ks {
+        for (ki, &k) in ks.iter().enumerate() {
             for mode in 0..2 {
                 let mut c = case.clone();
                 if mode == 0 {
                     c.fail_at = vec![k];
-                    if r.chance(1, 4) {
+                    if !is_corpus && r.chance(1, 4) {
                         c.fail_at.push(k + r.range(1, 9)); // a second, later failure
                     }
                 } else {
@@ -676,26 +783,19 @@ fn main() {
                 s.count(if mode == 0 { "faulty_runs:fail_at" } else { "faulty_runs:fail_from" });
                 s.count(&format!("error_kind:{:?}", kind));
                 s.count_n("failures_injected", fr.injected);
-                let desc = format!("kind={:?} {}", kind, describe(&c));
+                let desc = format!("kind={:?} {}{}", kind, if is_corpus { "corpus " } else { "" }, describe(&c));
                 if let Some((class, detail)) = fr.bad {
                     s.fail(&class, format!("[error kind {:?}] {detail}", kind), desc.clone());
                 }
                 let rep = fr.obs.iter().zip(c.ops.iter()).filter(|(o, (_, op))| !o.ok && matches!(op, Op::MPrintln(_) | Op::MClear)).count();
                 s.count_n("io_errors_reported", rep as u64);
-                if corr.len() < corr_per_hist * 4 {
-                    corr.push((c, fr.obs, fr.injected > 0, desc));
+                if in_model && compared.contains(&(ki, mode)) {
+                    s.count(&format!("compared_first_k:{:03}-{:03}", k / 20 * 20, k / 20 * 20 + 19));
+                    s.count(if mode == 0 { "compared_mode:one_shot(fail_at)" } else { "compared_mode:sticky(fail_from)" });
+                    s.case(coq_case(&c, &fr.obs), desc, fr.injected > 0);
                 } else {
                     s.oracle_only(desc, fr.injected > 0);
                 }
-            }
-        }
-        // correspondence sample: spread over k
-        let step = (corr.len() / corr_per_hist).max(1);
-        for (j, (c, o, nt, d)) in corr.into_iter().enumerate() {
-            if j % step == 0 && in_model {
-                s.case(coq_case(&c, &o), d, nt);
-            } else {
-                s.oracle_only(d, nt);
             }
         }
         let _ = TOp::Flush;
